@@ -3,6 +3,8 @@ import os
 
 from ..facts import walk, strip, strip_casts, lv, show, writes, calls, int_value, Function
 from ..snapshot import AnalysisBroken
+from ..flow import cond_atoms
+from ..q import chain_elems
 from . import c08
 
 UNITS = None
@@ -217,6 +219,149 @@ def r20_3(prog, rep):
                              else "A's leading run is not skipped, the merge makes no progress"))
 
 
+# comparator polarity inside the template, confirmed by reading: (the loop continues / A is taken) on compare(x, y) being true|false,
+# and where the searched value (resp. the B element) stands
+CMP_POLARITY = {
+    "FindFirstForward": ("true", 2),    # gallop while array[i] < value
+    "FindLastForward": ("false", 1),    # gallop while !(value < array[i])
+    "FindFirstBackward": ("false", 2),  # gallop while !(array[i] < value)
+    "FindLastBackward": ("true", 1),    # gallop while value < array[i]
+}
+
+
+def r20_5(prog, rep):
+    """Polarity of the raw comparisons that decide ties.  The gallop loops of the four Find* helpers must stop at the same side of a run
+    of equal elements as the binary search they hand over to; the merges take the element of the LEFT run unless the right one is
+    strictly smaller (`!compare(B, A)`), which is what keeps equal elements in their original order."""
+    rid = "R20.5"
+    for unit, cmp_ in (("instant.c", "echs_instant_lt_p"), ("event.c", "echs_event_lt_p")):
+        fns = _template_fns(prog, unit)
+        for name, (want_truth, want_pos) in CMP_POLARITY.items():
+            f = fns.get(name)
+            if f is None:
+                rep.broken_("rule=%s %s: %s not found" % (rid, unit, name))
+                continue
+            cfg = f.cfg
+            val = f.params[1]["n"]
+            loops = cfg.natural_loops()
+            got = []
+            for h, blks in loops.items():
+                for b in blks:
+                    c = cfg.cond(b)
+                    if c is None:
+                        continue
+                    for si, sb in enumerate(cfg.blocks[b].succs):
+                        if sb is None or sb not in blks:
+                            continue
+                        for a in cond_atoms(c, si == 0):
+                            if len(a) == 3 and isinstance(strip(a[2]), dict) and strip(a[2]).get("k") == "call" and strip(a[2]).get("fn") == cmp_:
+                                args = [lv(strip_casts(x_)) for x_ in strip(a[2])["a"]]
+                                got.append((a[0], 1 if args[0] == val else (2 if args[1] == val else 0)))
+            key = "%s/%s/gallop" % (unit, name)
+            if got == [(want_truth, want_pos)]:
+                rep.ok(rid, key, f.loc(), "gallops on compare(%s) being %s" % ("value, array[i]" if want_pos == 1 else "array[i], value", want_truth))
+            elif len(got) != 1:
+                rep.broken_("rule=%s %s: %d comparator tests on the gallop loop where 1 was confirmed by reading" % (rid, key, len(got)))
+            else:
+                rep.fail(rid, key, f.loc(), "the gallop loop continues on compare(%s) being %s; with the binary search it hands over to it must be compare(%s) "
+                         "being %s: inside a run of equal elements the search stops at the wrong end, the `unique` buffer picks duplicates and the merge loses "
+                         "or duplicates elements" % ("value, array[i]" if got[0][1] == 1 else "array[i], value", got[0][0],
+                                                     "value, array[i]" if want_pos == 1 else "array[i], value", want_truth))
+        for name in ("MergeExternal", "MergeInternal"):
+            f = fns.get(name)
+            if f is None:
+                rep.broken_("rule=%s %s: %s not found" % (rid, unit, name))
+                continue
+            cfg = f.cfg
+            got = []
+            for b in cfg.blocks:
+                c = cfg.cond(b)
+                if c is None:
+                    continue
+                for si, sb in enumerate(cfg.blocks[b].succs):
+                    if sb is None:
+                        continue
+                    for a in cond_atoms(c, si == 0):
+                        e_ = strip(a[2]) if len(a) == 3 else None
+                        if isinstance(e_, dict) and e_.get("k") == "call" and e_.get("fn") == cmp_:
+                            # which run does this edge take from?  the A side advances A_index / A_count in the successor
+                            adv = set()
+                            for bb, ii, ee in chain_elems(cfg, sb):
+                                for l, kind, nn in writes(ee["x"]):
+                                    if kind == "incdec":
+                                        adv.add(lv(l))
+                            side = "A" if any(v.startswith("A_") for v in adv) else ("B" if any(v.startswith("B_") for v in adv) else "?")
+                            first = show(strip_casts(e_["a"][0]))
+                            got.append((side, a[0], "B" if "B" in first else "A"))
+            key = "%s/%s/tie-break" % (unit, name)
+            takeA = [g for g in got if g[0] == "A"]
+            if takeA == [("A", "false", "B")]:
+                rep.ok(rid, key, f.loc(), "the element of the left run is taken unless compare(B, A): ties keep their order")
+            elif len(takeA) != 1:
+                rep.broken_("rule=%s %s: cannot identify the branch that takes from the left run (%s)" % (rid, key, got))
+            else:
+                rep.fail(rid, key, f.loc(), "the left run's element is taken when compare(%s first) is %s; stability needs `!compare(B, A)`: with %s equal "
+                         "elements of the right run overtake those of the left run" % (takeA[0][2], takeA[0][1], "this test"))
+
+
+def r20_6(prog, rep):
+    """Typestate of the external cache in the block-rolling loop: a memcpy into the cache parks an A block there until the next merge consumes it.
+    While a block may be parked (forward may-analysis over the CFG), Rotate() must not be given the cache as scratch space (cache_size 0)."""
+    rid = "R20.6"
+    for unit in ("instant.c", "event.c"):
+        f = _template_fns(prog, unit).get("WikiSort")
+        if f is None:
+            rep.broken_("rule=%s %s: WikiSort not found" % (rid, unit))
+            continue
+        cfg = f.cfg
+
+        def transfer(b, st, check=None):
+            for i, e in enumerate(cfg.blocks[b].elems):
+                x = e["x"]
+                if not (isinstance(x, dict) and x.get("k") == "call"):
+                    continue
+                fn = x.get("fn")
+                if fn == "memcpy" and show(strip_casts(cfg.resolve(x["a"][0]))).replace(" ", "") in ("&cache[0]", "cache"):
+                    st = {"LIVE"}
+                elif fn in ("MergeExternal", "MergeInternal", "MergeInPlace"):
+                    st = {"DEAD"}
+                elif fn == "Rotate" and check is not None:
+                    check.append((b, i, x, set(st)))
+            return st
+        IN = {b: set() for b in cfg.blocks}
+        IN[cfg.entry] = {"DEAD"}
+        work = [cfg.entry]
+        while work:
+            b = work.pop()
+            out = transfer(b, set(IN[b]))
+            for s_ in cfg.blocks[b].live_succs():
+                if not out <= IN[s_]:
+                    IN[s_] |= out
+                    work.append(s_)
+        sites = []
+        for b in cfg.blocks:
+            if IN[b]:
+                transfer(b, set(IN[b]), sites)
+        n = 0
+        for b, i, x, st in sites:
+            n += 1
+            last = const_eval_local(cfg.resolve(x["a"][-1]))
+            key = "%s/WikiSort/Rotate@%d" % (unit, n)
+            if "LIVE" in st and last != 0:
+                rep.fail(rid, key, f.loc(x.get("line")),
+                         "Rotate() is given the cache as scratch space (%s) at a point where the cache may still hold the A block parked there by memcpy: "
+                         "the parked block is overwritten, the next merge duplicates some elements and loses others" % show(x["a"][-1]))
+            else:
+                rep.ok(rid, key, f.loc(x.get("line")), "cache %s" % ("disabled (0) while a block may be parked" if "LIVE" in st else "free: no block parked on any path"))
+        if n < 4:
+            rep.broken_("rule=%s %s: %d Rotate calls in WikiSort, >= 4 confirmed by reading" % (rid, unit, n))
+
+
+def const_eval_local(x):
+    x = strip_casts(x)
+    return int_value(x)
+
+
 def r20_4(prog, rep):
     """A whole block is swapped/copied out of the rolling A blocks only while there is one: every block_size-long access that starts at
     R.start (R a Range local) is reached only with Range_length(R) > 0 established and not invalidated (shifting start and end by the
@@ -338,6 +483,10 @@ def run(prog, rep, tier, snap):
     rep.call(r20_3, prog, rep)
     rep.rule("R20.4", "whole-block accesses only while a whole A block exists", 8)
     rep.call(r20_4, prog, rep)
+    rep.rule("R20.5", "polarity of the tie-deciding comparisons in the Find* helpers and the merges", 12)
+    rep.call(r20_5, prog, rep)
+    rep.rule("R20.6", "the cache is not used as scratch space while it holds a parked block", 8)
+    rep.call(r20_6, prog, rep)
     rep.rule("R08.3", "sentinels wrap to zero: all-day sorts before timed (shared with C08)", 4)
     rep.call(c08.r08_3, prog, rep)
 READY = True
